@@ -96,7 +96,7 @@ def build(ctx):
         Job('sokey.order', C, 'h_sokey', route='LW', unwind=10, timeout=600, target='split_order_key_regular/dummy + get_parent: ordering at every table size 2^k', source=UB),
         Job('sokey.modpow2', C, 'h_modpow2', route='LW', unwind=66, target='bucket = hash % bucket_count for bucket_count == 2^k (k <= 63, divisor constant per unrolled iteration)', source=UB),
         Job('bcount.round_up', C, 'h_round_up', route='LF', target='round_up_to_power_of_two', source=UB),
-        Job('bcount.rehash', C, 'h_rehash', route='RG', target='concurrent_unordered_base::rehash', source=UB),
+        Job('bcount.rehash', C, 'h_rehash', route='RG', loops=True, target='concurrent_unordered_base::rehash', source=UB),
         Job('bcount.adjust', C, 'h_adjust', route='RG', target='concurrent_unordered_base::adjust_table_size [IEEE float]', source=UB),
     ]
     return {
